@@ -22,6 +22,7 @@ open Genshi Genshi.San.Spec
 structure CfgMarkupOk (cfg : Cfg) : Prop where
   tags : ∀ t ∈ cfg.safeTags, Reader.nameOkB t = true ∧ '{' ∉ t ∧ Reader.rawTextElems.contains t = false
   attrs : ∀ a ∈ cfg.safeAttrs, Reader.nameOkB a = true ∧ '{' ∉ a ∧ ':' ∉ a ∧ a ≠ Output.xmlns
+  braces : (∀ t ∈ cfg.safeTags, '}' ∉ t) ∧ (∀ a ∈ cfg.safeAttrs, '}' ∉ a)
 
 theorem text_plain {q : QName} (h : '{' ∉ q.text) : q.ns = [] ∧ q.text = q.loc := by
   unfold QName.text at h ⊢
@@ -33,7 +34,7 @@ theorem text_plain {q : QName} (h : '{' ∉ q.text) : q.ns = [] ∧ q.text = q.l
 
 /-- what an emitted attribute is known to satisfy -/
 def AttrGood (cfg : Cfg) (b : QName × Str) : Prop :=
-  b.1.text ∈ cfg.safeAttrs ∧ (b.1.text ∈ cfg.uriAttrs → isSafeUri cfg b.2 = true) ∧
+  b.1.text ∈ cfg.safeAttrs ∧ stripentities b.2 = .ok b.2 ∧ (b.1.text ∈ cfg.uriAttrs → isSafeUri cfg b.2 = true) ∧
     (b.1.text ∉ cfg.uriAttrs → b.1.text = styleWord →
       ∃ x decls, sanitizeCss cfg x = .ok decls ∧ b.2 = Genshi.Str.join declSep decls)
 
@@ -72,7 +73,7 @@ end
 
 theorem attrGood_of_sanAttr {cfg : Cfg} {a b : QName × Str} (h : sanAttr cfg a = .ok (some b)) : AttrGood cfg b := by
   have f := sanAttr_some h
-  refine ⟨?_, ?_, ?_⟩
+  refine ⟨?_, f.stable, ?_, ?_⟩
   · rw [f.name]; simpa using f.safe
   · intro hu
     apply f.uri
@@ -236,6 +237,7 @@ end
 
 /-- the guarantees of the property for an attribute value that a reader delivers -/
 def ValueSafe (cfg : Cfg) (n val : Str) : Prop :=
+  stripentities val = .ok val ∧
   (n ∈ cfg.uriAttrs → ∀ sch, browserScheme val = some sch → sch ∈ cfg.safeSchemes) ∧
   (n ∉ cfg.uriAttrs → n = styleWord →
     cssDecode val = val ∧ hasExpression val = false ∧ ∀ arg ∈ urlArgs val, GoodArg cfg arg)
@@ -252,8 +254,8 @@ def TokSafe (cfg : Cfg) : Reader.Tok → Prop
 
 theorem valueSafe_of_good (hd : Genshi.Gen.SanClass.commentsDotall = true) {cfg : Cfg} (hcss : CssNamesPlain cfg)
     {b : QName × Str} (h : AttrGood cfg b) : ValueSafe cfg b.1.text b.2 := by
-  obtain ⟨_, hu, hs⟩ := h
-  refine ⟨fun hin sch hb => isSafeUri_sound (hu hin) hb, fun hnin hst => ?_⟩
+  obtain ⟨_, hst0, hu, hs⟩ := h
+  refine ⟨hst0, fun hin sch hb => isSafeUri_sound (hu hin) hb, fun hnin hst => ?_⟩
   obtain ⟨x, decls, hsan, hj⟩ := hs hnin hst
   rw [hj]
   exact ⟨sanitizeCss_decode_fixed hd hsan,
@@ -308,6 +310,27 @@ theorem htmlAttrToks_safe (hd : Genshi.Gen.SanClass.commentsDotall = true) {cfg 
       exact valueSafe_of_good hd hcss hg
     · simp at hpq
 
+theorem stripEntGo_no_amp : ∀ (f : Nat) (s : Str), '&' ∉ s → stripEntGo f s = .ok s := by
+  intro f
+  induction f with
+  | zero => intro s _; rfl
+  | succ f ih =>
+    intro s h
+    cases s with
+    | nil => rfl
+    | cons c cs =>
+      have hc : c ≠ '&' := fun e => h (by simp [e])
+      have hcs : '&' ∉ cs := fun hm => h (by simp [hm])
+      simp [stripEntGo, hc, ih cs hcs]
+
+theorem stripentities_no_amp {s : Str} (h : '&' ∉ s) : stripentities s = .ok s := stripEntGo_no_amp _ s h
+
+theorem nameOk_no_amp {n : Str} (h : Reader.nameOkB n = true) : '&' ∉ n := by
+  intro hm
+  simp only [Reader.nameOkB, Bool.and_eq_true, List.all_eq_true] at h
+  have := h.2 '&' hm
+  revert this; decide
+
 theorem xhtml_bool_not_style : Output.inTable (Output.booleanAttrs .xhtml) styleWord = false := by decide
 
 /-- the attributes an XML tokenizer delivers for a sanitized XHTML start tag -/
@@ -343,7 +366,7 @@ theorem xhtmlAttrToks_safe (hd : Genshi.Gen.SanClass.commentsDotall = true) {cfg
     simp at hpq; subst hpq
     refine ⟨hg.1, fun val hv => ?_⟩
     simp at hv; subst hv
-    refine ⟨fun _ sch hb' => ?_, fun _ hst => ?_⟩
+    refine ⟨stripentities_no_amp (nameOk_no_amp (hm.attrs _ hg.1).1), fun _ sch hb' => ?_, fun _ hst => ?_⟩
     · rw [browserScheme_no_colon hcol] at hb'; cases hb'
     · have hst' : b.1.text = styleWord := hst
       rw [hst', xhtml_bool_not_style] at hbool; cases hbool
